@@ -147,5 +147,35 @@ def main_selection():
     sys.exit(1 if fails else 0)
 
 
+def main_dc_after_ac():
+    """an AC power flow, a change, then a DC power flow on the same object: every result column equals the DC run of a fresh copy"""
+    fails = []
+    net = pp.create_empty_network()
+    b = pp.create_buses(net, 3, 110.)
+    pp.create_ext_grid(net, b[0], vm_pu=1.02)
+    pp.create_gen(net, b[1], p_mw=10., vm_pu=1.01)
+    for f, t in ((0, 1), (1, 2)):
+        pp.create_line_from_parameters(net, b[f], b[t], 20., 0.06, 0.3, 10., 1.)
+    pp.create_load(net, b[2], 30., 10.)
+    pp.runpp(net)
+    net.load.at[0, "q_mvar"] = 40.
+    pp.rundcpp(net)
+    f = fresh_copy(net); pp.rundcpp(f)
+    for tab in ("res_bus", "res_ext_grid", "res_gen", "res_load", "res_line"):
+        for col in f[tab].columns:
+            if col in net[tab] and f[tab][col].dtype.kind == "f":
+                x, y = net[tab][col].values.astype(float), f[tab][col].values.astype(float)
+                if not np.allclose(x, y, atol=1e-8, equal_nan=True):
+                    fails.append(f"rundcpp after runpp: {tab}.{col} = {np.round(x, 3)} on the used net, {np.round(y, 3)} on a fresh copy")
+        extra = [c for c in net[tab].columns if c not in f[tab].columns]
+        if extra:
+            fails.append(f"rundcpp after runpp: {tab} keeps the columns {extra} of the earlier calculation")
+    for x in fails[:6]:
+        print("REPRODUCED:", x)
+    if not fails:
+        print("not reproduced: used net objects give the results of fresh copies")
+    sys.exit(1 if fails else 0)
+
+
 if __name__ == "__main__":
     main()
